@@ -176,7 +176,11 @@ func cloneLink(l intoto.Link) intoto.Link {
 	return c
 }
 
-var badHex = []string{"", "xyz", "12g4", "abc ", " abc", "ab\n", "0x12", "ab-cd", "é"}
+var badHex = []string{"", "xyz", "12g4", "abc ", " abc", "ab\n", "0x12", "ab-cd", "é",
+	// non-ASCII look-alikes of hexadecimal digits: fullwidth digits and letters (Unicode Hex_Digit),
+	// Arabic-Indic, Devanagari, mathematical digits (Unicode Nd), Cyrillic/Greek letters, mixed with ASCII
+	"\uff11\uff12\uff13\uff14", "\uff41\uff42\uff43\uff44\uff45\uff46", "\uff21\uff22\uff23\uff24\uff25\uff26", "\uff10\uff19\uff41\uff26",
+	"12\uff41b", "ab\uff10", "\uff46f", "\u0661\u0662\u0663", "ab\u0660", "\u0967\u0968", "\U0001d7d8\U0001d7d9", "\u0430\u0431\u0441", "\u0391\u0392", "a\u0301", "ab\u200b"}
 var badExpiry = []string{"", "2030-01-02", "2030-01-02T03:04:05", "2030-01-02T03:04:05+00:00", "2030-13-02T03:04:05Z",
 	"2030-02-30T03:04:05Z", "2030-01-02 03:04:05Z", "2030-1-2T03:04:05Z", "2030-01-02T24:00:00Z", "tomorrow",
 	"2030-01-02T03:04:05Zx", "20300-01-02T03:04:05Z"}
@@ -187,6 +191,16 @@ var oddExpiry = []string{"2030-01-02T03:04:05.5Z", "2030-01-02T03:04:05,12345678
 var badRules = [][]string{{}, {"CREATE"}, {"CREATE", "a", "b"}, {"FOO", "a"}, {"MATCH", "a", "WITH", "PRODUCTS"},
 	{"MATCH", "a", "WITH", "FOO", "FROM", "b"}, {"MATCH", "a", "IN", "b", "WITH", "PRODUCTS", "FROM"}, {""},
 	{"MATCH", "a", "WITH", "PRODUCTS", "FROM", "b", "x"}}
+
+// look-alike classes get their own label so that the stratified sample of the quick tier always has them
+func hexKlass(base, h string) string {
+	for i := 0; i < len(h); i++ {
+		if h[i] >= 0x80 {
+			return base + "-unicode"
+		}
+	}
+	return base
+}
 
 type pems struct{ rsaPub, rsaPriv, ecPub, ecPriv, cert, garbage string }
 
@@ -261,7 +275,7 @@ func layoutInvalidations(r *lib.Rng, base intoto.Layout) []valCase {
 	})
 	for _, h := range badHex {
 		h := h
-		add("key-keyid-hex", func(l *intoto.Layout) {
+		add(hexKlass("key-keyid-hex", h), func(l *intoto.Layout) {
 			id, k := firstKey(l)
 			delete(l.Keys, id)
 			k.KeyID = h
@@ -299,7 +313,7 @@ func layoutInvalidations(r *lib.Rng, base intoto.Layout) []valCase {
 	add("step-type", func(l *intoto.Layout) { l.Steps[0].Type = r.Pick([]string{"", "inspection", "Step", "link"}) })
 	for _, h := range badHex {
 		h := h
-		add("step-pubkey-hex", func(l *intoto.Layout) { l.Steps[0].PubKeys = append(l.Steps[0].PubKeys, h) })
+		add(hexKlass("step-pubkey-hex", h), func(l *intoto.Layout) { l.Steps[0].PubKeys = append(l.Steps[0].PubKeys, h) })
 	}
 	for _, br := range badRules {
 		br := br
@@ -315,8 +329,8 @@ func layoutInvalidations(r *lib.Rng, base intoto.Layout) []valCase {
 	for _, h := range badHex {
 		h := h
 		l := cloneLayout(base)
-		out = append(out, valCase{klass: "sig-keyid-hex", target: "metablock", v: valInput{Layout: &l, Sigs: []intoto.Signature{{KeyID: h, Sig: "ab"}}}, want: "ERR"})
-		out = append(out, valCase{klass: "sig-sig-hex", target: "metablock", v: valInput{Layout: &l, Sigs: []intoto.Signature{{KeyID: "ab", Sig: "cd"}, {KeyID: "ab", Sig: h}}}, want: "ERR"})
+		out = append(out, valCase{klass: hexKlass("sig-keyid-hex", h), target: "metablock", v: valInput{Layout: &l, Sigs: []intoto.Signature{{KeyID: h, Sig: "ab"}}}, want: "ERR"})
+		out = append(out, valCase{klass: hexKlass("sig-sig-hex", h), target: "metablock", v: valInput{Layout: &l, Sigs: []intoto.Signature{{KeyID: "ab", Sig: "cd"}, {KeyID: "ab", Sig: h}}}, want: "ERR"})
 	}
 	// signed is not a Layout/Link value
 	{
@@ -394,13 +408,13 @@ func linkCases(r *lib.Rng) []valCase {
 	add("link-type", "ERR", func(l *intoto.Link) { l.Type = r.Pick([]string{"", "layout", "Link", "link "}) })
 	for _, h := range badHex {
 		h := h
-		add("link-material-hex", "ERR", func(l *intoto.Link) {
+		add(hexKlass("link-material-hex", h), "ERR", func(l *intoto.Link) {
 			for p := range l.Materials {
 				l.Materials[p] = intoto.HashObj{"sha256": h}
 				break
 			}
 		})
-		add("link-product-hex", "ERR", func(l *intoto.Link) { l.Products["zz"] = intoto.HashObj{"sha256": "ab", "md5": h} })
+		add(hexKlass("link-product-hex", h), "ERR", func(l *intoto.Link) { l.Products["zz"] = intoto.HashObj{"sha256": "ab", "md5": h} })
 	}
 	l := cloneLink(base)
 	out = append(out, valCase{klass: "sig-keyid-hex", target: "metablock", v: valInput{Link: &l, Sigs: []intoto.Signature{{KeyID: "zz", Sig: "ab"}}}, want: "ERR"})
@@ -430,6 +444,21 @@ func keyCases(r *lib.Rng) []valCase {
 	e3 := edp
 	e3.KeyVal.Private = "0x"
 	add("keyval-ed25519-privhex", "keyval", "ERR", e3)
+	for _, h := range badHex {
+		if hexKlass("", h) == "" {
+			continue
+		}
+		a := ed
+		a.KeyVal.Public = h
+		add("keyval-ed25519-pubhex-unicode", "keyval", "ERR", a)
+		b := edp
+		b.KeyVal.Private = h
+		add("keyval-ed25519-privhex-unicode", "keyval", "ERR", b)
+		c := ed
+		c.KeyID = h
+		add("key-keyid-hex-unicode", "key", "ERR", c)
+		add("key-keyid-hex-unicode", "pubkey", "ERR", c)
+	}
 	rk := intoto.Key{KeyID: "ab", KeyType: "rsa", Scheme: "rsassa-pss-sha256", KeyVal: intoto.KeyVal{Public: p.rsaPub}}
 	add("keyval-rsa", "keyval", "OK", rk)
 	rkp := rk
